@@ -492,6 +492,8 @@ def _is_zero(a):
 
 def kf_zero_tiny(args):
     """DEFECT A: a zero UBig/IBig/FBig (RBig/Relaxed) against a primitive float 0 < f < 1/2 (< 1/4)"""
+    if len(args) < 2:
+        return False
     for z, f in ((args[0], args[1]), (args[1], args[0])):
         v = _fval(f)
         if v is not None and v == v and _is_zero(z) and not z.startswith("p:"):
@@ -502,6 +504,8 @@ def kf_zero_tiny(args):
 
 def kf_ibig_inf(args):
     """DEFECT F: IBig against an infinity of its own sign"""
+    if len(args) < 2:
+        return False
     for z, f in ((args[0], args[1]), (args[1], args[0])):
         v = _fval(f)
         t = z.split(":")
@@ -512,6 +516,8 @@ def kf_ibig_inf(args):
 
 def kf_float_abs_negative(args):
     """DEFECT B: AbsOrd between a finite FBig and a UBig/IBig where the significand (or the IBig) is negative"""
+    if len(args) < 2:
+        return False
     for f, n in ((args[0], args[1]), (args[1], args[0])):
         tf, tn = f.split(":"), n.split(":")
         if tf[0] == "f" and tn[0] == "n":
@@ -522,12 +528,13 @@ def kf_float_abs_negative(args):
     return False
 
 def kf_hash_den_multiple(args):
-    """DEFECT C: a Relaxed whose stored denominator is a multiple of 2^127 - 1"""
+    """DEFECT C: a Relaxed whose stored numerator and denominator are both multiples of 2^127 - 1
+    (Relaxed::from_parts only cancels powers of two, which does not affect divisibility by M)"""
     for a in args:
         t = a.split(":")
         if t[0] == "q" and t[2] == "X":
             n, d = t[1].split("/")
-            if _ival(n) != 0 and int(d, 16) % M127 == 0:
+            if _ival(n) != 0 and int(d, 16) % M127 == 0 and _ival(n) % M127 == 0:
                 return True
     return False
 
@@ -543,6 +550,8 @@ def kf_prim_abs_min(args):
 
 def kf_float_exp_overflow(args):
     """DEFECT E: FBig against f32/f64 with |exponent| * bit_len(B) beyond isize"""
+    if len(args) < 2:
+        return False
     for f, p in ((args[0], args[1]), (args[1], args[0])):
         tf = f.split(":")
         if tf[0] == "f" and _fval(p) is not None:
@@ -562,3 +571,4 @@ LEVEL_TEXT = ""
 LEVEL_NOTE = ""
 TECHNIQUE = "Lean 4 theorems over an executable mirrored model with estimate-oracle parameters + differential correspondence model vs real code"
 JOBS = 14
+READY = False
